@@ -45,6 +45,7 @@
    Err 1-5 are the FromStr errors of RelParse.v.
    No proofs in this file. *)
 From V.model Require Import Base RelLex RelParse.
+From V.model Require RelAcc.
 
 (* ------------------------------------------------------------------ fixes *)
 Record variant := mk_variant {
@@ -1054,3 +1055,31 @@ Fixpoint mapM {A B} (f : A -> res B) (l : list A) : res (list B) :=
 (* the list-of-lists view of a field: entries of alternatives *)
 Definition structure (t : rtree) : res (list (list relrec)) :=
   mapM (fun e => mapM relrec_of (relations e)) (entries t).
+
+(* Relation::version() hands the version text to debversion: `version.parse::<Version>().unwrap()`.
+   What the caller holds is a Version, i.e. (for all this API and its callers can observe) its
+   Display text: RelAcc.debversion_roundtrip — the text again, the epoch re-printed in canonical
+   decimal; Panic 12 when the text is not a version ("1_2", an epoch above u32::MAX).  [structure]
+   above reads the version text AS WRITTEN (no parse: it never panics on it); [structure_d] is what
+   the accessors return, with that parse.  A version OPERAND (set_version, Relation::new, the
+   builder) is a Version too: the text an operation is given is the Display of one
+   ([version_operand] = the text a caller's `text.parse::<Version>()` gives, Err when it is none). *)
+Definition version_operand (s : str) : res str := RelAcc.debversion_roundtrip s.
+Definition rel_version_d (r : rtree) : res verspec :=
+  match rel_version r with
+  | Ok (Some (vc, ver)) =>
+      match RelAcc.debversion_roundtrip ver with
+      | Ok v' => Ok (Some (vc, v'))
+      | _ => Panic 12
+      end
+  | x => x
+  end.
+Definition relrec_of_d (r : rtree) : res relrec :=
+  match rel_name r, rel_version_d r with
+  | Ok n, Ok v => Ok (mk_relrec n (rel_archqual r) v (rel_architectures r) (rel_profiles r))
+  | Panic n, _ => Panic n
+  | _, Panic n => Panic n
+  | _, _ => Err 96
+  end.
+Definition structure_d (t : rtree) : res (list (list relrec)) :=
+  mapM (fun e => mapM relrec_of_d (relations e)) (entries t).
